@@ -322,10 +322,10 @@ class C04(OwnProfile):
     )
 
     def after(self, w, op, out):
-        before = w.counters["probe:moved_owned"]
         inv_c04(w)
-        d = OPS[op["op"]]
-        compare_model(w, d.touched(w, op), ("C04",))
+        if w.deferred is None:
+            d = OPS[op["op"]]
+            compare_model(w, d.touched(w, op), ("C04",))
 
     def nontrivial(self, w):
         return w.counters["fam:own_child"] + w.counters["fam:own_set"] + w.counters["fam:own_list"] >= 3
@@ -350,6 +350,8 @@ class C16(OwnProfile):
         return c
 
     def after(self, w, op, out):
+        if w.deferred is not None:
+            return
         d = OPS[op["op"]]
         if op["op"] in ("setop", "listop", "se"):
             w.counters["meth:" + op["op"] + "." + op["method"]] += 1
@@ -593,7 +595,8 @@ class C11(OwnProfile):
     def after(self, w, op, out):
         if op["op"] == "cfg":
             w.counters["meth:cfg." + op["method"]] += 1
-        inv_c11(w)
+        if w.deferred is None:
+            inv_c11(w)
 
     def nontrivial(self, w):
         ms = [k for k in w.counters if k.startswith("meth:cfg.") and k[9:] in CfgMUT]
@@ -645,6 +648,8 @@ class C19(OwnProfile):
         return super().gen_family(w, r, fam)
 
     def after(self, w, op, out):
+        if w.deferred is not None:
+            return
         inv_c19(w)
         if op["op"] == "setattr" and op["attr"] == "size":
             n = w.m.nodes.get(op["label"])
@@ -870,3 +875,16 @@ class C08(AuxProfile):
 
     def nontrivial(self, w):
         return w.counters["probe:aux_saved_encoded"] > 0 and w.counters["probe:peer_files"] > 0
+
+    def config(self, r):
+        c = AuxProfile.config(self, r)
+        c["collect_java"] = True
+        return c
+
+    def post_batch(self, results, pools, build_dir, seed):
+        from .javastage import run_stage
+
+        samples = []
+        for d in results:
+            samples.extend((d.get("extras") or {}).get("java", []))
+        return run_stage(samples[:20000], pools, build_dir)
